@@ -61,16 +61,12 @@ Section FoldM.
 End FoldM.
 
 (* ---- attributes *)
-Fixpoint count_occ_str (x : string) (l : list string) : nat :=
-  match l with [] => O | y :: r => if String.eqb x y then S (count_occ_str x r) else count_occ_str x r end.
-
 Definition dedup_str (l : list string) : list string := dedup_key (fun x => x) l [].
 
 (* loadEnumAttribute + newEnumAttributeFromBase: the default first, then the other values in file
-   order; every further copy of the default leaves an empty string at the end of the array *)
+   order, repeated values dropped *)
 Definition enum_attr_values (def : string) (vals : list string) : list string :=
-  dedup_str (def :: filter (fun v => negb (String.eqb v def)) vals
-                 ++ repeat EmptyString (pred (count_occ_str def vals))).
+  dedup_str (def :: filter (fun v => negb (String.eqb v def)) vals).
 
 Definition load_attr (pa : PAttribute) : result attr :=
   let typ := dec_attr_type (pat_type pa) in
@@ -92,11 +88,8 @@ Definition load_attr (pa : PAttribute) : result attr :=
       else Ok {| at_ent := ent; at_body := ABFloat d mn mx |}
   | PABEnum d vals =>
       if negb (typ =? 4) then Err InvalidOneof
-      else match vals with
-           | [] => Err IsNil
-           | _ => if memb d vals then Ok {| at_ent := ent; at_body := ABEnum d (enum_attr_values d vals) |}
-                  else Err NotFound
-           end
+      else if memb d vals then Ok {| at_ent := ent; at_body := ABEnum d (enum_attr_values d vals) |}
+      else Err NotFound
   end.
 
 (* loadAttributeAssignment + withAttributes.addAttributeAssignment: one assignment per attribute,
@@ -247,8 +240,6 @@ Fixpoint first_flags (keys : list string) (seen : list string) : list bool :=
   | [] => []
   | k :: r => if memb k seen then false :: first_flags r seen else true :: first_flags r (k :: seen)
   end.
-
-Definition group_count_max := 65536.
 
 Fixpoint load_sig (ev : env) (ps : PSignal) : result sig :=
   match ps with
